@@ -71,7 +71,9 @@ M("C05-shade-nodeact", "C05", SH, '''                self._history.append(metaep
                 self.log("SHADE Deme finished due to GSC")
 ''', ["R05.4"], "SHADE: GSC-true branch does not deactivate")
 M("C05-cma-nogsc", "C05", CMA, "if (gsc_value := tree._gsc(tree)) or self._cma_es.stop():", "if (gsc_value := False) or self._cma_es.stop():", ["R05.4"], "CMA: GSC not consulted per generation")
-M("C05-lhs-nogsc", "C05", LHS, "if (gsc_value := tree._gsc(tree)) or self._lsc(self):", "if (gsc_value := False) or self._lsc(self):", ["R05.4"], "LHS: GSC not consulted")
+# the tree's own GSC checks still bound the wind-down (C05 holds); the deme that never looks at the GSC is C06's concern
+T("C05-t-lhs-nogsc", "C05", LHS, "if (gsc_value := tree._gsc(tree)) or self._lsc(self):", "if (gsc_value := False) or self._lsc(self):", "LHS: GSC not consulted by the deme; run() and run_step() still consult it")
+M("C06-lhs-nogsc", "C06", LHS, "if (gsc_value := tree._gsc(tree)) or self._lsc(self):", "if (gsc_value := False) or self._lsc(self):", ["R06.9", "R06.4"], "LHS: GSC not consulted")
 M("C05-sobol-twogens", "C05", SOB, '''    def run_metaepoch(self, tree) -> None:
         self.run()
 ''', '''    def run_metaepoch(self, tree) -> None:
